@@ -6,6 +6,7 @@ from .registers import RiscvRegister, LR
 from .tokens import RiscvToken, RiscvcToken
 from .rvc_relocations import BcImm11Relocation, BcImm8Relocation
 from .rvc_relocations import CBImm11Relocation, CBlImm11Relocation
+from .relocations import BImm20Relocation
 from ..generic_instructions import ArtificialInstruction
 from ...utils.bitfun import sign_extend
 from .instructions import Andr, Orr, Xorr, Subr, Addi, Slli, Srli
@@ -180,7 +181,16 @@ class CBl(RiscvInstruction):
         return tokens[0].encode()
 
     def relocations(self):
-        return [CBlImm11Relocation(self.target)]
+        # The linker may shrink the instruction carrying this relocation.
+        # The compressed jumps have a fixed link register: c.jal always
+        # links ra (x1) and c.j links nothing (x0). Any other link register
+        # only exists in the 32 bits form.
+        if self.rd.num == 1:
+            return [CBlImm11Relocation(self.target)]
+        elif self.rd.num == 0:
+            return [CBImm11Relocation(self.target)]
+        else:
+            return [BImm20Relocation(self.target)]
 
 
 class CJal(RiscvcInstruction):
